@@ -227,8 +227,28 @@ NL == <<10>>
 (* vy_print of any value: a FUNCTION is called on the current stack (its arity is popped from
    there) and its result printed -- always with a newline, whatever `end` was (PrintOfFunctionEndsLine);
    ctx.printed is set before the call.  `kont`: what the element does after printing. *)
+(* PrintPopsRegisteredStack: the arguments come from ctx.stacks[-1]; a list item's own stack is
+   not registered there, so inside an item they are popped from the enclosing activation's stack *)
+RegisteredAct(m) == CHOOSE j \in 1..Len(m.acts) :
+                        /\ m.acts[j].kind # "item"
+                        /\ \A k \in (j + 1)..Len(m.acts) : m.acts[k].kind = "item"
+Pop1At(m, j) ==
+    IF m.acts[j].stk # <<>> THEN <<Last(m.acts[j].stk), [m EXCEPT !.acts[j].stk = Front(@)]>>
+    ELSE ImplicitInput(m)
+RECURSIVE PopNAt(_, _, _)
+PopNAt(m, j, n) ==
+    IF n = 0 THEN <<<<>>, m>>
+    ELSE LET p == Pop1At(m, j)
+             r == PopNAt(p[2], j, n - 1)
+         IN <<<<p[1]>> \o r[1], r[2]>>
+CallFromRegistered(m, fv, kont) ==
+    IF fv.f.kind = "fn" THEN Undef(m, "call-of-named-function-value")
+    ELSE LET n == IF fv.f.sar # -1 THEN fv.f.sar ELSE fv.f.ar
+             r == PopNAt(m, RegisteredAct(m), n)
+         IN EnterLambda(r[2], fv, r[1], kont)
+
 PrintVal(m, v, end, kont) ==
-    IF IsF(v) THEN CallFromStack([m EXCEPT !.printed = TRUE], v, <<[k |-> "k_print"]>> \o kont)
+    IF IsF(v) THEN CallFromRegistered([m EXCEPT !.printed = TRUE], v, <<[k |-> "k_print"]>> \o kont)
     ELSE IF ~Printable(v) THEN Undef(m, "print-of-function")
     ELSE PushCtl([m EXCEPT !.out = @ \o Str(v) \o end, !.printed = TRUE], kont)
 
